@@ -138,7 +138,7 @@ class Probe(RecordUpdateListener):
         act = self.script.get(str(self.nupd))
         self.nupd += 1
         if act:
-            self.h.probe_action(act[0], act[1], from_callback=True)
+            self.h.probe_action(act[0], act[1], from_callback=True, again=len(act) > 2 and bool(act[2]))
 
     def async_update_records_complete(self):
         self.calls.append(("done", self.h.snapshot()))
@@ -441,6 +441,10 @@ class Harness:
         else:
             p = self.probes.pop(pid, None)
             if p is None:
+                if again and pid in self.all_probes:
+                    # the application removes a listener that it has removed already: nothing to do, nothing to raise
+                    zc.async_remove_listener(self.all_probes[pid])
+                    self.stats["probe_removed_again"] = self.stats.get("probe_removed_again", 0) + 1
                 return
             zc.async_remove_listener(p)
         if from_callback or self.in_delivery:
